@@ -44,6 +44,9 @@ func VerifCfbWrite(names []string, contents [][]byte) []byte {
 	return compoundFile.write()
 }
 
+// verifZero backs the stream contents handed to locate, which only looks at their lengths.
+var verifZero []byte
+
 // VerifCfbLocate returns the sector layout computed for streams of the given sizes.
 func VerifCfbLocate(names []string, sizes []int) []int {
 	compoundFile := &cfb{
@@ -51,7 +54,10 @@ func VerifCfbLocate(names []string, sizes []int) []int {
 		sectors: []sector{{name: "Root Entry", typeID: 5}},
 	}
 	for i := range names {
-		compoundFile.put(names[i], make([]byte, sizes[i]))
+		if sizes[i] > len(verifZero) {
+			verifZero = make([]byte, sizes[i])
+		}
+		compoundFile.put(names[i], verifZero[:sizes[i]])
 	}
 	compoundFile.prepare()
 	return compoundFile.locate()
